@@ -226,7 +226,7 @@ func configText(sc Scenario, root string, servers []string, variant string) stri
 	}
 	var b strings.Builder
 	b.WriteString("anchors: []\nschema:\n  fields: " + fields + "\n  maxFields: " + maxFields + "\n")
-	b.WriteString("inputs:\n  - type: syslog\n    address: 127.0.0.1:0\n    levelMapping: [" + strings.Join(levels, ", ") + "]\n    extractions:\n      - type: extractHead\n        key: log\n        pattern: '\\[*\\] '\n        maxLen: " + extractLen + "\n        destKey: kind\n      - type: drop\n        match:\n          kind: xdrop\n        percentage: 100\n        metricLabel: xfiltered\n")
+	b.WriteString("inputs:\n  - type: syslog\n    address: 127.0.0.1:0\n    levelMapping: [" + strings.Join(levels, ", ") + "]\n    extractions:\n      - type: extractHead\n        key: log\n        pattern: '\\[*\\] '\n        maxLen: " + extractLen + "\n        destKey: kind\n      - type: drop\n        match:\n          kind: xdrop\n        percentage: 100\n        metricLabel: xfiltered\n      - type: drop\n        match:\n          kind: xdrop2\n        percentage: 100\n        metricLabel: xfiltered\n")
 	b.WriteString("orchestration:\n" + orchestration)
 	metricKeys := "[source]"
 	if variant == "incompatible" {
@@ -297,6 +297,9 @@ func line(gen, conn, seq int, r Rec, key string) ([]byte, *Expected) {
 		}
 	} else if r.Kind == 3 {
 		kind = "[xdrop] " // dropped by the drop rule among the input extractions, before the pipeline
+		if seq%2 == 1 {
+			kind = "[xdrop2] " // a second drop rule among the extractions that reports to the same metric label
+		}
 	} else if seq%3 == 0 {
 		kind = "[cls] "
 	}
